@@ -44,10 +44,30 @@ def elf_decoder(F, table=None):
     return hits[0] if len(hits) == 1 else None
 
 
+BR = "multiboot2_common::bytes_ref::BytesRef"
+
+
+def bytesref_ctors(F, table=None):
+    """the validating constructors of BytesRef<H>: functions of BytesRef (the TryFrom impl, or an inherent `new` it may forward to)
+    taking one `&[u8]` and answering Result<BytesRef<H>, MemoryError> -> instance keys"""
+    out = []
+    for k, v in (table if table is not None else F.insts).items():
+        if v.get("impl_self_path") != BR or v.get("closure") or not v.get("body"):
+            continue
+        b = v["body"]
+        if b.get("argc") != 1:
+            continue
+        rt, at = str(b["locals"][0]["ty"]), str(b["locals"][1]["ty"])
+        if at == "&[u8]" and rt.startswith("core::result::Result<" + BR + "<") and "MemoryError" in rt:
+            out.append(k)
+    return out
+
+
 def units(F):
     """keys of F.insts that are units by role"""
     out = set()
     k = elf_decoder(F)
     if k is not None:
         out.add(k)
+    out.update(bytesref_ctors(F))
     return out
